@@ -43,8 +43,17 @@ REPO = os.environ.get("DOCTRANS_REPO", "/repo")
 # contracts
 # ------------------------------------------------------------------------------------------------
 class Clause:
-    def __init__(self, cid, text, when=None, note=""):
+    def __init__(self, cid, text, when=None, note="", uses=()):
         self.id, self.text, self.when, self.note = cid, text, when, note
+        self.uses = list(uses)  # [(lemma id, {param: expression text})]
+
+
+class Lemma:
+    """a closed fact over fresh variables, proved once per run as its own obligation and instantiated
+    (as a hypothesis) where a clause says so"""
+
+    def __init__(self, lid, params, text, note=""):
+        self.id, self.params, self.text, self.note = lid, params, text, note
 
 
 class Case:
@@ -61,7 +70,7 @@ class Outcome:
 
 class Contract:
     def __init__(self, func, cases, ensures, requires=(), raises=None, loops=None, ghosts=None,
-                 canaries=(), outcomes=None, use_contract_for=(), note="", properties=()):
+                 canaries=(), outcomes=None, use_contract_for=(), note="", properties=(), defs=None, lemmas=()):
         self.func = func  # "doctrans.module:qualname"
         self.cases = cases
         self.requires = list(requires)
@@ -74,6 +83,9 @@ class Contract:
         self.use_contract_for = set(use_contract_for)  # callee qualnames replaced by their contract
         self.note = note
         self.properties = list(properties)
+        self.defs = defs or {}
+        self.witness = None
+        self.lemmas = {l.id: l for l in lemmas}
 
 
 # ------------------------------------------------------------------------------------------------
@@ -188,6 +200,16 @@ def make_value(spec, name, st, inputs):
 # ------------------------------------------------------------------------------------------------
 # verification of one function
 # ------------------------------------------------------------------------------------------------
+def _re_word(name, text):
+    import re
+
+    return re.search(r"\b%s\b" % re.escape(name), text) is not None
+
+
+def n_ret_with_ghost_needed(outs):
+    return True
+
+
 class FuncReport:
     def __init__(self, contract):
         self.contract = contract
@@ -258,6 +280,8 @@ class VEngine(E.Engine):
         # requires -> obligations at the call site
         sid = self.new_scope(st, binding)
         self.frames.append(E.Frame(sid, fn, "<callee-contract>"))
+        saved_defs = self.spec_defs
+        self.spec_defs = c.defs
         try:
             for k, txt in enumerate(c.requires):
                 g = self.spec_eval(txt, st)
@@ -286,6 +310,7 @@ class VEngine(E.Engine):
                 res.append((r, s2))
         finally:
             self.frames.pop()
+            self.spec_defs = saved_defs
         for _, s in res:
             s.scopes.pop(sid, None)
         return res
@@ -313,6 +338,9 @@ def verify_function(contract, registry, only_cases=None):
         label = "%s[%s]" % (contract.func, case.name)
         eng = VEngine(registry, label, contract)
         eng.loop_specs = contract.loops
+        eng.spec_defs = contract.defs
+        fors = sorted((n for n in ast.walk(node) if isinstance(n, ast.For)), key=lambda n: (n.lineno, n.col_offset))
+        eng.loop_ordinals = {id(n): k + 1 for k, n in enumerate(fors)}
         eng.ghost_hooks = contract.ghosts
         st = E.State()
         inputs = {}
@@ -356,6 +384,13 @@ def verify_function(contract, registry, only_cases=None):
             cov = E.Obligation(label + "/cover-pre", "cover", contract.func, st.pc, z3.BoolVal(False),
                                "precondition is satisfiable (expected: sat)")
             eng.obligations.append(cov)
+            if case is contract.cases[0] or (only_cases and case.name == only_cases[0]):
+                for lem in contract.lemmas.values():
+                    lenv = {pn: make_value(pt, "lem_%s_%s" % (lem.id, pn), st, {}) for pn, pt in lem.params.items()}
+                    g = eng.spec_eval(lem.text, st, env=lenv)
+                    lob = E.Obligation("%s/lemma-%s" % (contract.func, lem.id), "lemma", contract.func, [],
+                                       z3.BoolVal(g) if isinstance(g, bool) else g, lem.text)
+                    eng.obligations.append(lob)
             outs = eng.exec_block(node.body, st)
             n_ret = 0
             for kind, val, s in outs:
@@ -371,8 +406,20 @@ def verify_function(contract, registry, only_cases=None):
                             g = eng.spec_eval(cl.text, s, env=env)
                             ob = eng.oblige("post", s, z3.BoolVal(g) if isinstance(g, bool) else g, cl.text,
                                             oid="%s/%s@path%d" % (label, cl.id, n_ret))
+                            for lid, inst in cl.uses:
+                                lem = contract.lemmas[lid]
+                                lenv = dict(env)
+                                try:
+                                    for pn, etxt in inst.items():
+                                        lenv[pn] = eng.spec_value(etxt, s, env=env)
+                                    li = eng.spec_eval(lem.text, s, env=lenv)
+                                except Unsupported:
+                                    continue
+                                ob.hyps.append(z3.BoolVal(li) if isinstance(li, bool) else li)
+                                ob.extra.setdefault("lemmas_used", []).append(lid)
                             ob.extra["clause"] = cl.id
                             ob.extra["result"] = repr(result)
+                            ob.extra["ghost_terms"] = {gk: gv.t for gk, gv in s.ghost.items() if isinstance(gv, Sym)}
                         except Unsupported as e:
                             ob = eng.oblige("post", s, z3.BoolVal(False), cl.text, oid="%s/%s@path%d" % (label, cl.id, n_ret))
                             ob.status, ob.reason = "undecided", "spec not evaluable: %s" % e
@@ -403,7 +450,12 @@ def verify_function(contract, registry, only_cases=None):
             rep.cases[case.name] = {"return_paths": n_ret, "forks": eng.n_forks, "pruned": eng.n_pruned}
             # ghost anchors
             for key in contract.ghosts:
-                if key not in eng.hooks_fired:
+                names = [nm for nm, _ in contract.ghosts[key]]
+                used = any(
+                    (cl.when is None or case.name in cl.when) and any(_re_word(nm, cl.text) for nm in names)
+                    for cl in contract.ensures
+                )
+                if used and n_ret_with_ghost_needed(outs) and key not in eng.hooks_fired:
                     ob = eng.oblige("anchor", st, z3.BoolVal(False), "ghost anchor not reached: %s" % key)
                     ob.status, ob.reason = "undecided", "anchor lost"
         except Unsupported as e:
@@ -430,28 +482,105 @@ def verify_function(contract, registry, only_cases=None):
 # ------------------------------------------------------------------------------------------------
 # solving
 # ------------------------------------------------------------------------------------------------
-def _solve_one(job):
-    idx, text, budget, portfolio = job
+# ladders: (hypothesis variant, formulation, solver, share of the budget).  variants: s1/s3 = quantifier-free
+# relevance cone of depth 1/3, s2q = cone of depth 2 with quantified hypotheses, full = everything.
+# formulations: abs = pyslice/nobr uninterpreted, pat = definitions as pattern axioms, rec = define-fun-rec.
+# `unsat` on any rung is sound (fewer hypotheses); `sat` only counts on full + rec/pat.
+CHEAP_LADDER = (
+    ("s1", "abs", "z3", 0.15), ("full", "abs", "z3", 0.15), ("s1", "rec", "cvc5", 0.2), ("s1", "rec", "z3", 0.15),
+    ("full", "pat", "z3-old", 0.2), ("full", "rec", "cvc5", 0.2), ("s3", "abs", "z3", 0.1), ("full", "rec", "z3", 0.2),
+)
+LADDER = (
+    ("s1", "rec", "cvc5", 1.0), ("full", "rec", "z3", 1.0), ("full", "rec", "cvc5", 1.0), ("s3", "rec", "cvc5", 0.5),
+    ("full", "pat", "z3", 0.5), ("full", "pat", "z3-old", 1.0), ("s2q", "rec", "z3", 0.5), ("s2q", "abs", "z3", 0.3),
+)
+CANARY_LADDER = (("s1", "abs", "z3", 0.15), ("full", "rec", "z3", 0.2))
+
+
+def _solve_sub(variants, budget, ladder):
+    """variants: {tag: path}"""
     results = []
-    verdict, backend, ms = "unknown", None, 0
-    for solver in portfolio:
-        v, secs, raw = smt.run_solver_file(text, solver, budget)
-        results.append((solver, v, round(secs * 1000)))
-        ms += secs * 1000
-        if v in ("sat", "unsat"):
-            verdict, backend = v, solver
+    forms_cache = {}
+    files = {}
+    for vtag, form, solver, share in ladder:
+        path = variants.get(vtag)
+        if path is None:
+            continue
+        if vtag not in forms_cache:
+            forms_cache[vtag] = smt.formulations(open(path).read())
+        forms = forms_cache[vtag]
+        if form not in forms:
+            if form == "abs" or form == "pat":
+                continue
+        txt = forms.get(form)
+        if txt is None:
+            continue
+        fkey = (vtag, form)
+        if fkey not in files:
+            fp = path[:-5] + "." + form + ".smt2"
+            with open(fp, "wt") as f:
+                f.write(txt)
+            files[fkey] = fp
+        v, secs, raw = smt.run_solver_file(files[fkey], solver, max(1.0, budget * share))
+        name = "%s:%s/%s" % (vtag, form, solver)
+        results.append((name, v, round(secs * 1000)))
+        if v == "unsat":
+            return "unsat", name, results
+        if v == "sat" and vtag == "full" and (form != "abs" or len(forms) == 1):
+            return "sat", name, results
+    return "unknown", None, results
+
+
+def _solve_one(job):
+    idx, subs, budget, ladder = job
+    results = []
+    verdict, backend = "unsat", None
+    t0 = time.time()
+    for variants in subs:
+        v1, b1, res = _solve_sub(variants, budget, ladder)
+        results.extend(res)
+        backend = b1 or backend
+        if v1 == "sat":
+            verdict = "sat"
             break
-    return idx, verdict, backend, round(ms), results
+        if v1 != "unsat":
+            verdict = "unknown"
+            break
+    return idx, verdict, backend, round((time.time() - t0) * 1000), results
 
 
-def solve_all(obligations, budget=10, workers=16, tmpdir=None, portfolio=("z3", "cvc5"), both=False):
-    """Discharge every obligation whose status is None. Returns stats dict."""
+MAX_FULL_PER_CLAUSE = 4
+
+
+def solve_all(obligations, budget=10, workers=16, tmpdir=None, portfolio=None):
+    """Two phases: every obligation against the cheap ladder; what is left gets the full ladder, but at
+    most MAX_FULL_PER_CLAUSE obligations per (kind, clause) -- the rest stay undecided (never a verdict)."""
+    st1 = _solve_phase(obligations, budget, workers, tmpdir, CHEAP_LADDER)
+    left = [ob for ob in obligations if ob.status == "undecided" and ob.extra.get("solver_runs") is not None]
+    per = {}
+    todo = []
+    for ob in left:
+        k = (ob.kind, ob.extra.get("clause") or ob.note, ob.extra.get("case"))
+        per[k] = per.get(k, 0) + 1
+        if per[k] <= MAX_FULL_PER_CLAUSE and ob.kind not in ("canary",):
+            ob.extra["phase1_runs"] = ob.extra.get("solver_runs")
+            ob.status, ob.reason = None, None
+            todo.append(ob)
+        else:
+            ob.reason = (ob.reason or "") + " [full ladder skipped: clause already undecided on %d paths]" % MAX_FULL_PER_CLAUSE
+    st2 = _solve_phase(todo, budget, workers, tmpdir, portfolio or LADDER) if todo else {"solve_wall_s": 0, "queries": 0}
+    return {"solve_wall_s": round(st1["solve_wall_s"] + st2["solve_wall_s"], 2), "queries": st1["queries"] + st2["queries"],
+            "phase2_obligations": len(todo)}
+
+
+def _solve_phase(obligations, budget, workers, tmpdir, portfolio):
     import tempfile
 
     own = tmpdir is None
     tmpdir = tmpdir or tempfile.mkdtemp(prefix="pyvc_", dir=os.environ.get("VERIF_SCRATCH"))
     jobs = []
     t0 = time.time()
+    nq = 0
     for idx, ob in enumerate(obligations):
         if ob.status is not None:
             continue
@@ -463,15 +592,45 @@ def solve_all(obligations, budget=10, workers=16, tmpdir=None, portfolio=("z3", 
             ob.status, ob.backend, ob.ms = "discharged", "simplifier", 0
             continue
         try:
-            txt = smt.to_smt2(ob.hyps, z3.Not(goal))
+            if ob.kind == "cover":
+                subs = [(ob.hyps, goal)]
+            else:
+                subs = smt.split_goal(ob.hyps, goal)
+            sub_variants = []
+            shas = []
+            for k, (hy, g) in enumerate(subs):
+                if z3.is_true(z3.simplify(g)):
+                    continue
+                variants = {}
+                seen_sizes = set()
+                if ob.kind != "cover":
+                    for tag, depth, qf in (("s1", 1, True), ("s3", 3, True), ("s2q", 2, False)):
+                        hs = smt.slice_hyps(hy, g, depth, qf)
+                        if len(hs) in seen_sizes or len(hs) == len(hy):
+                            continue
+                        seen_sizes.add(len(hs))
+                        txt = smt.to_smt2(hs, z3.Not(g))
+                        p = os.path.join(tmpdir, "vc_%05d_%d_%s.smt2" % (idx, k, tag))
+                        with open(p, "wt") as f:
+                            f.write(txt)
+                        variants[tag] = p
+                txt = smt.to_smt2(hy, z3.Not(g))
+                p = os.path.join(tmpdir, "vc_%05d_%d_full.smt2" % (idx, k))
+                with open(p, "wt") as f:
+                    f.write(txt)
+                variants["full"] = p
+                shas.append(smt.sha(txt)[:16])
+                sub_variants.append(variants)
         except Exception as e:  # noqa
             ob.status, ob.reason = "undecided", "smt2 dump failed: %s" % e
             continue
-        p = os.path.join(tmpdir, "vc_%05d.smt2" % idx)
-        with open(p, "wt") as f:
-            f.write(txt)
-        ob.extra["smt2_sha"] = smt.sha(txt)[:16]
-        jobs.append((idx, p, budget, portfolio))
+        ob.extra["smt2_sha"] = shas
+        ob.extra["subgoals"] = len(sub_variants)
+        if not sub_variants:
+            ob.status, ob.backend, ob.ms = "discharged", "simplifier", 0
+            continue
+        nq += len(sub_variants)
+        jobs.append((idx, sub_variants, budget, CANARY_LADDER if ob.kind == "canary" else portfolio))
     with ThreadPoolExecutor(max_workers=workers) as ex:
         for idx, verdict, backend, ms, results in ex.map(_solve_one, jobs):
             ob = obligations[idx]
@@ -491,7 +650,7 @@ def solve_all(obligations, budget=10, workers=16, tmpdir=None, portfolio=("z3", 
         import shutil
 
         shutil.rmtree(tmpdir, ignore_errors=True)
-    return {"solve_wall_s": round(time.time() - t0, 2), "queries": len(jobs)}
+    return {"solve_wall_s": round(time.time() - t0, 2), "queries": nq}
 
 
 def model_for(ob, timeout_ms=20000):
@@ -502,6 +661,9 @@ def model_for(ob, timeout_ms=20000):
     terms = list(ob.hyps) + [ob.goal if not isinstance(ob.goal, bool) else z3.BoolVal(ob.goal)]
     for name, a in ax.items():
         if smt.uses(terms, name):
+            s.add(a)
+    if smt.GROUND_CF and smt.uses(terms, "casefold"):
+        for a in smt.GROUND_CF.values():
             s.add(a)
     for h in ob.hyps:
         s.add(h)
